@@ -440,24 +440,23 @@ func yield(site string, internal bool) {
 		}
 		sw = s.tapes[StrSch].Chance(p, 1000)
 	case PolPCT:
+		// strict priority scheduling: park at every scheduling point and let
+		// the scheduler (which sees a settled world after synctest.Wait) pick the
+		// highest-priority runnable goroutine. Looking at other goroutines'
+		// states here would race with natively woken goroutines on their way
+		// to Resume.
 		if s.pctAt[s.Steps] {
 			s.lowPrio++
 			g.prio = 1000 - s.lowPrio
-			sw = true
-		} else {
-			for _, o := range s.order {
-				if o.state == stRunnable && o.prio > g.prio {
-					sw = true
-					break
-				}
-			}
+			s.Preempts++
 		}
+		sw = true
 	}
-	if sw {
+	if sw && s.cfg.Policy != PolPCT {
 		s.Preempts++
 	}
 	if s.cfg.Trace {
-		s.tracef("y %s %s %v", g.Key, site, sw)
+		s.tracef("y %s %s %v p%d", g.Key, site, sw, len(s.tapes[StrSch].Rec)/2)
 	}
 	s.mu.Unlock()
 	if !sw {
@@ -678,7 +677,7 @@ func (s *Sched) Run(main func()) Outcome {
 			s.lastG = g
 		}
 		if s.cfg.Trace {
-			s.tracef("run %s @%s of %d", g.Key, g.why, len(runnable))
+			s.tracef("run %s @%s of %d p%d", g.Key, g.why, len(runnable), len(s.tapes[StrSch].Rec)/2)
 		}
 		s.mu.Unlock()
 		select {
